@@ -1,4 +1,5 @@
 import Np.Model.Div
+import Np.Proofs.Div
 import Mathlib.Algebra.MvPolynomial.Basic
 import Mathlib.Tactic.Ring
 /-! C05 — polynomial division: the division identity is an invariant of every reduction step, the loop stops only
@@ -67,6 +68,32 @@ theorem fuel_mono (d : List (Expo × R)) :
       simp only [hs] at h ⊢
       exact fuel_mono d fuel qf' r h
 end model
+
+section refinement
+variable {K : Type} [Field K] [BEq K] [LawfulBEq K]
+
+/-- the executable long division satisfies the division identity: whenever `divmod` returns (within its fuel),
+`dividend = q·divisor + r` as multivariate polynomials — any number of indeterminates, any number of terms, any
+field of coefficients (rows pairwise distinct and of the names' length, as in every well-formed polynomial) -/
+theorem divmod_identity (ns : List Name) (fuel : Nat) (f d q r : List (Expo × K))
+    (hf : (f.map (·.1)).Nodup) (hfl : ∀ t ∈ f, t.1.length = ns.length) (hdl : ∀ t ∈ d, t.1.length = ns.length)
+    (h : divmod fuel f d = some (q, r)) : denT ns f = denT ns q * denT ns d + denT ns r :=
+  Div.divmod_identity ns fuel f d q r hf hfl hdl h
+
+/-- … and the remainder is reduced: when the divisor element is not zero it has a leading term (largest non-zero
+term in lexsort order) and no non-zero term of the remainder is divisible by it. In one indeterminate this is
+`deg r < deg divisor`; for a non-zero constant divisor every monomial is divisible, so `r = 0`. -/
+theorem remainder_reduced (fuel : Nat) (f d q r : List (Expo × K)) (t0 : Expo × K) (ht0 : t0 ∈ d) (hnz : t0.2 ≠ 0)
+    (h : divmod fuel f d = some (q, r)) :
+    ∃ lead, maxTerm (fun t => !(t.2 == 0)) d = some lead ∧ lead ∈ d ∧ lead.2 ≠ 0 ∧
+      ∀ t ∈ r, t.2 ≠ 0 → divides lead.1 t.1 = false :=
+  Div.divmod_remainder_reduced' fuel f d q r t0 ht0 hnz h
+
+/-- quotient and remainder are again sparse term lists with pairwise distinct rows of the right length -/
+theorem divmod_wellformed (ns : List Name) (fuel : Nat) (f d q r : List (Expo × K))
+    (hf : (f.map (·.1)).Nodup) (hfl : ∀ t ∈ f, t.1.length = ns.length) (hdl : ∀ t ∈ d, t.1.length = ns.length)
+    (h : divmod fuel f d = some (q, r)) : Div.Inv ns q ∧ Div.Inv ns r := Div.divmod_inv ns fuel f d q r hf hfl hdl h
+end refinement
 
 /-- non-vacuity: (q0³ + q1³ + 1) / (q0 + q1) = q1² − q0 q1 + q0², remainder 1, within 3 steps;
 and the witness of the former two-cycle now stops at once: q0² q1 is not divisible by the leading term q1² -/
